@@ -42,9 +42,10 @@ WithVal(x, F(_)) == FoldLeft(LAMBDA acc, e : F(e), 0, <<x>>)
 AddC(a, b, c0) ==
    LET Step(acc, i) == LET s == a[i] + b[i] + acc[2] IN <<Append(acc[1], s % 256), s \div 256>>
    IN FoldLeft(Step, <<<<>>, c0>>, Indices)[1]
-AddL(a, b) == AddC(a, b, 0)
-NegL(a) == AddC(BNot(a), Zero, 1)
-SubL(a, b) == AddC(a, BNot(b), 1)
+\* (arguments are bound once with WithVal: an unevaluated argument would be recomputed at every limb access)
+AddL(a, b) == WithVal(<<a, b>>, LAMBDA ab : AddC(ab[1], ab[2], 0))
+NegL(a) == WithVal(BNot(a), LAMBDA na : AddC(na, Zero, 1))
+SubL(a, b) == WithVal(<<a, BNot(b)>>, LAMBDA ab : AddC(ab[1], ab[2], 1))
 
 \* unsigned value, defined when it is below 2^24 (always when W <= 3)
 SmallNat(a) == \A i \in 4..W : a[i] = 0
@@ -68,10 +69,12 @@ SmallInt(a) == IF IsNeg(a) THEN SmallNat(Neg(a)) ELSE SmallNat(a)
 ToSmallInt(a) == IF IsNeg(a) THEN 0 - ToNat(Neg(a)) ELSE ToNat(a)
 
 (* ---------------------------------------------------------------- comparisons *)
-RECURSIVE ULtFrom(_, _, _)
-ULtFrom(a, b, i) == IF i = 0 THEN FALSE
-                    ELSE IF a[i] # b[i] THEN a[i] < b[i] ELSE ULtFrom(a, b, i - 1)
-ULtL(a, b) == ULtFrom(a, b, W)
+\* compare from the most significant limb down: 0 undecided, 1 less, 2 greater
+IndicesDesc == [j \in 1..W |-> W + 1 - j]
+ULtV(ab) == FoldLeft(LAMBDA acc, i : IF acc # 0 THEN acc
+                                     ELSE IF ab[1][i] < ab[2][i] THEN 1 ELSE IF ab[1][i] > ab[2][i] THEN 2 ELSE 0,
+                     0, IndicesDesc) = 1
+ULtL(a, b) == WithVal(<<a, b>>, ULtV)
 ULt(a, b) == IF Fast THEN ToNat(a) < ToNat(b) ELSE ULtL(a, b)
 ULe(a, b) == ~ULt(b, a)
 SLt(a, b) == IF IsNeg(a) # IsNeg(b) THEN IsNeg(a) ELSE ULt(a, b)
@@ -80,9 +83,10 @@ SLe(a, b) == ~SLt(b, a)
 (* ---------------------------------------------------------------- multiplication *)
 RECURSIVE ColSum(_, _, _, _)
 ColSum(a, b, k, i) == IF i > k THEN 0 ELSE a[i] * b[k + 1 - i] + ColSum(a, b, k, i + 1)
-MulL(a, b) ==
-   LET Step(acc, k) == LET s == ColSum(a, b, k, 1) + acc[2] IN <<Append(acc[1], s % 256), s \div 256>>
+MulV(ab) ==
+   LET Step(acc, k) == LET s == ColSum(ab[1], ab[2], k, 1) + acc[2] IN <<Append(acc[1], s % 256), s \div 256>>
    IN FoldLeft(Step, <<<<>>, 0>>, Indices)[1]
+MulL(a, b) == WithVal(<<a, b>>, MulV)
 \* fast path: split into 12-bit halves so that no intermediate product reaches 2^31
 MulNat(x, y) == LET x0 == x % 4096  x1 == x \div 4096  y0 == y % 4096  y1 == y \div 4096 IN
                 (x0 * y0 + ((x1 * y0 + x0 * y1) % 4096) * 4096) % 16777216
@@ -123,9 +127,10 @@ Abs(a) == IF IsNeg(a) THEN Neg(a) ELSE a       \* as an unsigned magnitude (min_
 
 \* divide an unsigned magnitude by a small divisor (d <= 2^23), limb by limb from the top, with TLC
 \* integers: <<quotient, remainder (a TLC integer)>>.  Also used for decimal rendering.
-DivSmall(m, d) ==
-   LET Step(acc, i) == LET cur == acc[2] * 256 + m[i] IN <<[acc[1] EXCEPT ![i] = cur \div d], cur % d>>
-   IN FoldLeft(Step, <<Zero, 0>>, [j \in 1..W |-> W + 1 - j])
+DivSmallV(md) ==
+   LET Step(acc, i) == LET cur == acc[2] * 256 + md[1][i] IN <<[acc[1] EXCEPT ![i] = cur \div md[2]], cur % md[2]>>
+   IN FoldLeft(Step, <<Zero, 0>>, IndicesDesc)
+DivSmall(m, d) == WithVal(<<m, d>>, DivSmallV)
 IsSmallDivisor(d) == SmallNat(d) /\ ToNat(d) <= 8388608
 UDivModAny(n, d) == IF IsSmallDivisor(d) THEN LET qr == DivSmall(n, ToNat(d)) IN <<qr[1], FromNat(qr[2])>>
                     ELSE UDivMod(n, d)
